@@ -52,12 +52,17 @@ func checkC10(c *Ctx) {
 	c.Rule("C10.R4", "the receive loops survive errors: the only edges leaving the Serve receive loop and Client.listen originate at the loop header's state test; an error from readPacket / ReadMsgUDP / handleSessionMessage continues the loop (E4 loop survival)")
 	roots := []*ssa.Function{P.Func("transport", "(*Server).readPacket"), P.Func("transport", "(*Client).listen"), P.Func("transport", "(*Client).clientHandshakeLocked")}
 	abortReach(c, "C10.R2", roots, c10Scope, c10Assertions)
-	for _, l := range []struct{ fn, callee string }{
-		{"(*Server).Serve$1", hopID("transport", "Server", "readPacket")},
-		{"(*Client).listen", hopID("transport", "UDPLike", "ReadMsgUDP")},
-	} {
-		loopSurvivalRule(c, "C10.R4", P.Func("transport", l.fn), "transport."+l.fn, l.callee, nil)
+	// the server's receive goroutine: whichever goroutine body started by Serve calls readPacket
+	var recvLoop *ssa.Function
+	if serve := P.Func("transport", "(*Server).Serve"); serve != nil {
+		for _, g := range goBodiesOf(serve) {
+			if len(callSitesIn(g, false, hopID("transport", "Server", "readPacket"))) > 0 {
+				recvLoop = g
+			}
+		}
 	}
+	loopSurvivalRule(c, "C10.R4", recvLoop, "transport.(*Server).Serve:receive-goroutine", hopID("transport", "Server", "readPacket"), nil)
+	loopSurvivalRule(c, "C10.R4", P.Func("transport", "(*Client).listen"), "transport.(*Client).listen", hopID("transport", "UDPLike", "ReadMsgUDP"), nil)
 	c10Bounds(c)
 	c10R3(c)
 	c10R5(c)
@@ -341,16 +346,38 @@ func c10R3(c *Ctx) {
 		return
 	}
 	mf := ComputeMustFacts(rd)
-	key := rd.Params[3]
+	key0 := sessionKeyIn(P, rd)
+	if key0 == nil {
+		c.Undecided("C10.R3", FuncName(rd)+"#key-nil", "the key readPacketLocked opens packets with was not identified (neither a *[N]byte parameter nor a load of ss.readKey)")
+		return
+	}
+	// the key values: the parameter, or every load of ss.readKey (the field is not written here)
+	keys := []ssa.Value{key0}
+	if _, isParam := key0.(*ssa.Parameter); !isParam {
+		keys = nil
+		fRK := P.Field("transport", "SessionState", "readKey")
+		eachInstr(rd, func(ins ssa.Instruction) {
+			if u, ok := ins.(*ssa.UnOp); ok && u.Op == token.MUL {
+				if fa, ok := u.X.(*ssa.FieldAddr); ok && fieldOf(fa.X.Type(), fa.Field) == fRK {
+					keys = append(keys, u)
+				}
+			}
+		})
+	}
 	n := 0
 	bad := false
-	for _, r := range *key.Referrers() {
-		switch r.(type) {
-		case *ssa.Slice, *ssa.UnOp, *ssa.IndexAddr:
-			n++
-			if mf.NilAt(r, key) != nonNil {
-				bad = true
-				c.Fail("C10.R3", FuncName(rd)+"#key-nil", P.InstrPos(r), "the session key is dereferenced on a path where it was not found non-nil (a datagram for a session whose handshake has not finished would crash the endpoint)")
+	for _, key := range keys {
+		if key.Referrers() == nil {
+			continue
+		}
+		for _, r := range *key.Referrers() {
+			switch r.(type) {
+			case *ssa.Slice, *ssa.UnOp, *ssa.IndexAddr:
+				n++
+				if mf.NilAt(r, key) != nonNil && mf.NilAt(r, canon(key)) != nonNil {
+					bad = true
+					c.Fail("C10.R3", FuncName(rd)+"#key-nil", P.InstrPos(r), "the session key is dereferenced on a path where it was not found non-nil (a datagram for a session whose handshake has not finished would crash the endpoint)")
+				}
 			}
 		}
 	}
@@ -554,4 +581,30 @@ func c11R5(c *Ctx) {
 		})
 	}
 	c.Floor("C11.R5", "method calls on interfaces that may hold a pointer from an unchecked call", nSites, 1)
+}
+
+// sessionKeyIn identifies the key a packet function works with: its *[N]byte parameter,
+// or, when it has none, the value it loads from SessionState.readKey / writeKey.
+func sessionKeyIn(P *Program, fn *ssa.Function) ssa.Value {
+	for _, p := range fn.Params {
+		if pt, ok := p.Type().Underlying().(*types.Pointer); ok {
+			if at, ok := pt.Elem().Underlying().(*types.Array); ok {
+				if b, ok := at.Elem().Underlying().(*types.Basic); ok && b.Kind() == types.Uint8 {
+					return p
+				}
+			}
+		}
+	}
+	var found ssa.Value
+	for _, fname := range []string{"readKey", "writeKey"} {
+		f := P.Field("transport", "SessionState", fname)
+		eachInstr(fn, func(ins ssa.Instruction) {
+			if u, ok := ins.(*ssa.UnOp); ok && u.Op == token.MUL && found == nil && f != nil {
+				if fa, ok := u.X.(*ssa.FieldAddr); ok && fieldOf(fa.X.Type(), fa.Field) == f {
+					found = u
+				}
+			}
+		})
+	}
+	return found
 }
